@@ -17,7 +17,8 @@ TECHNIQUE = "def-use dataflow of the returned vector into the sanity flag; CFG c
 CLAIM = ("Decides (besides the precipitation switching conditions, dissolved() and the scalar bracketing solver's residual/result forms): the sanity flag returned by root/_solve/roots is _result_is_sane applied to the very vector returned and to the initial "
          "concentrations that parameterised the solve; _result_is_sane returns True only when neither 'some component negative' nor 'some "
          "component above upper bound*(1+rtol)' holds, with existential quantifiers; a failed solve is surfaced by a warning; EqCalcResult "
-         "stores concentrations, info and sanity from one _solve call.")
+         "stores concentrations, info and sanity from one _solve call."
+         ' Bracket arms of the scalar solver, precipitate lookup, solver-factory dispatch, default guess (R7). Shared rule A1: no swapped same-named arguments at resolved in-package call sites.')
 DOES_NOT_DECIDE = "that converged roots satisfy Q = K, precipitation switching logic, the 19/20 success rate (runtime behaviour of pyneqsys)"
 ASSUMPTIONS = ["numpy any/all semantics", "pyneqsys solve returns (x, info)"]
 
